@@ -368,7 +368,7 @@ PROPS['C18'] = dict(
     props='props/C18.v',
     models=['Mux'],
     harness='c18',
-    args=dict(quick=['-split', '60', '-asm', '80', '-conc', '6', '-backpressure', '2'], escalated=['-split', '120', '-asm', '200', '-conc', '20', '-backpressure', '4'], thorough=['-split', '400', '-asm', '1500', '-conc', '120', '-backpressure', '20']),
+    args=dict(quick=['-split', '60', '-asm', '80', '-conc', '6', '-backpressure', '2', '-stress', '1'], escalated=['-split', '120', '-asm', '200', '-conc', '20', '-backpressure', '4', '-stress', '8'], thorough=['-split', '400', '-asm', '1500', '-conc', '120', '-backpressure', '20', '-stress', '20']),
     fingerprint_groups=['Mux'],
     rule='(split) the real packetisation on buffer lengths 0, 1, lim-1, lim, lim+1, 2lim-1 .. 2lim+1 and random, for small limits and for the '
          'real chunk limit, compared with Mux.split; (assembler) random packet sequences over four topics (random EOF marks, empty and short '
@@ -381,9 +381,8 @@ PROPS['C18'] = dict(
          'message starts queueing and blocks half-way, a 1-packet message is sent on the same topic, the remote reads again: all 1001 '
          'messages must arrive as sent; non-trivial: every case',
     modelled='hand-modelled: split, Send\'s packet marking, the per-topic send queues and the single sender as an arbitrary order-preserving interleaving, '
-             'Stream.handlePacket (assembler, size cap, delivery on EOF). Not modelled: the rate limiter, heartbeats, queue time-outs (a Send that '
-             'fails half-way leaves a partial message on the queue: C18_partial_enqueue_merges shows what that would do; the implementation then '
-             'returns false but does not close the connection - observation O-9 in DESIGN.md), inbox overflow (messages may be dropped, which the '
+             'Stream.handlePacket (assembler, size cap, delivery on EOF). The bounded send queue with time-outs is modelled as qsend (whole or nothing; the queueing before the repair bdf6f29 is '
+             'qsend_old, refuted). Not modelled: the rate limiter, heartbeats (exercised against Stop()), inbox overflow (messages may be dropped, which the '
              'property allows), data races (a theorem cannot exhibit them; the concurrent run is also executed under the race detector in the '
              'thorough tier when the toolchain supports it).',
     assumptions=['the transport below delivers the packets in order and unmodified (C17)', 'messages are at most maxMessageSize'],
